@@ -369,6 +369,7 @@ Fixpoint fp_label_filters (p : planner) : list label_filter :=
   end.
 Definition pipeline_label_filters (ppl : list stage) : list label_filter :=
   flat_map (fun st => match st with PLabelFilter f => [f] | _ => [] end) ppl.
+Definition n_label_filters (s : script) : nat := List.length (pipeline_label_filters (sel_pipeline (stream_selector s))).
 (* the time window of the shortcut select *)
 Definition floor15 (x : Z) : Z := Z.quot x 15000000000 * 15000000000.
 Definition m15_in_window (c : pctx) (ts : Z) : bool := Z.leb (floor15 (c_from_ns c)) ts && Z.ltb ts (floor15 (c_to_ns c)).
